@@ -217,18 +217,42 @@ def run(ctx):
     from multiprocessing.managers import SharedMemoryManager
     nshm = ctx.budget(3, 12)
     mpctx = mp.get_context("spawn")
+    def layouts(a):
+        """the same values in every memory layout numpy hands out (the property speaks of arrays, not of C-ordered arrays)"""
+        yield "C", np.ascontiguousarray(a)
+        yield "F", np.asfortranarray(a)
+        yield "transposed-view", np.ascontiguousarray(a.T).T
+        if a.ndim >= 2:
+            yield "swapaxes-view", np.ascontiguousarray(np.swapaxes(a, 0, -1)).swapaxes(0, -1)
+            yield "moveaxis-view", np.ascontiguousarray(np.moveaxis(a, 0, -1)).copy().transpose(
+                [a.ndim - 1] + list(range(a.ndim - 1)))
+        big = np.zeros(tuple(2 * x + 1 for x in a.shape), dtype=a.dtype)
+        sl = tuple(slice(1, 1 + 2 * x, 2) for x in a.shape)
+        big[sl] = a
+        yield "strided-offset-view", big[sl]
+        yield "reversed-view", np.ascontiguousarray(a[::-1])[::-1]
+
     with SharedMemoryManager() as smh:
         for i in range(nshm):
             sh = tuple(int(x) for x in rng.integers(1, 6, size=int(rng.integers(1, 4))))
+            if i % 3 == 1:
+                sh = tuple(int(x) for x in rng.integers(2, 6, size=int(rng.integers(2, 4))))
             dt = [np.float32, np.float64, np.int32][i % 3]
-            a = rng.integers(-100, 100, size=sh).astype(dt)
-            args = be.to_sharedarr(a, smh)
-            q = mpctx.Queue()
-            p = mpctx.Process(target=_child_read, args=(args, q))
-            p.start()
-            back = q.get(timeout=120)
-            p.join()
-            same_here = np.array_equal(be.from_sharedarr(args), a)
-            ctx.spec("shared memory reads back identical in another process", {"shape": sh, "dtype": np.dtype(dt).name},
-                     same_here and back == a.tolist(), key="sharedarr")
-            ctx.distinct(("shm", sh, np.dtype(dt).name))
+            a0 = rng.integers(-100, 100, size=sh).astype(dt)
+            lay = list(layouts(a0))
+            for li, (lname, a) in enumerate(lay):
+                assert a.shape == a0.shape and np.array_equal(a, a0), lname
+                args = be.to_sharedarr(a, smh)
+                same_here = np.array_equal(be.from_sharedarr(args), a0)
+                back = a0.tolist()
+                if li == i % len(lay) or (li == 1 and i % 2 == 0):          # a child process for some of them (spawn is slow)
+                    q = mpctx.Queue()
+                    p = mpctx.Process(target=_child_read, args=(args, q))
+                    p.start()
+                    back = q.get(timeout=120)
+                    p.join()
+                ctx.spec("shared memory reads back identical in another process",
+                         {"shape": sh, "dtype": np.dtype(dt).name, "layout": lname, "values": a0.tolist()},
+                         same_here and back == a0.tolist(), key="sharedarr")
+                ctx.distinct(("shm", sh, np.dtype(dt).name, lname))
+                ctx.count("shm-layout:" + lname)
